@@ -128,10 +128,12 @@ def run(ctx):
             ctx.notes["search_evaluations"] = int(f[1])
         elif f[0] == "NOTE" and len(f) >= 3:
             ctx.notes.setdefault("search_notes", {})[f[1]] = f[2]
+    unknown = 0
     for f in fails:
-        ctx.failing_input(f[1], f[2], f[3], f[4])
-    ctx.log("search: %d failing inputs (%d signatures)" % (len(fails), len(set((f[1], f[2]) for f in fails))))
-    if mism and not fails:
+        if ctx.failing_input(f[1], f[2], f[3], f[4]):
+            unknown += 1
+    ctx.log("search: %d failing inputs (%d signatures, %d not known findings)" % (len(fails), len(set((f[1], f[2]) for f in fails)), unknown))
+    if mism and not unknown:   # failing inputs that are KNOWN findings do not explain a model/implementation mismatch
         by_id = {}
         for l in lines:
             p = l.split("\t")
